@@ -49,7 +49,7 @@ func init() {
 			"gomaxprocs_1", "gomaxprocs_2", "gomaxprocs_4", "gomaxprocs_16", "yield_profile_gosched", "yield_profile_sleep", "yield_points_hit", "pool_gets", "pool_reuses", "shared_codec_scenarios", "lazy_index_loads_under_contention"},
 		Rule: "case = one scenario of 2..7 tasks from {independent typed writer, reflection-path writer of a struct type new to the process (shared by several tasks), N goroutines on one freshly opened File (rows, row-group rows, pages, column/offset index, bloom filter checks, ReadAt; indexes and filters loaded lazily), one goroutine per ColumnWriter, BeginRowGroup filled concurrently and committed in order, fresh shared Schema (Deconstruct/Reconstruct/Comparator/Lookup), shared Encoding and Codec values, independent sorted buffers, shared Conversion, async-mode readers with seeks}; " +
 			"run concurrently, then serially, then concurrently under GOMAXPROCS in {1,2,4,16} and yield profiles {off, Gosched 20%, sleep 50us 2%} injected at the library's hook points; every named digest of the concurrent runs must equal the serial one; no panic; no buffer handed out twice by the page-buffer pool; race detector silent; no deadlock (watchdog)",
-		Assumptions: []string{"Go map-typed columns are excluded (map iteration order makes file bytes differ between any two runs)", "a deadlock verdict needs every goroutine blocked while the process consumes no CPU; anything else that is slow is inconclusive"},
+		Assumptions: []string{"maps hold at most one entry (with more, Go map iteration order makes file bytes differ between any two runs, serial or not)", "a deadlock verdict needs every goroutine blocked while the process consumes no CPU; anything else that is slow is inconclusive"},
 		Run:         runC15,
 	})
 }
@@ -213,9 +213,6 @@ var c15Codecs = []struct {
 func c15Types() []*typeEntry {
 	var out []*typeEntry
 	for _, te := range catalogue {
-		if typeHasMap(te.Type) {
-			continue
-		}
 		switch te.Name {
 		case "c06row", "c07row", "c13row", "c14row", "c18row", "wide", "deep":
 			continue
@@ -476,7 +473,7 @@ func c15WriterOpts(r *gen.Rand, codec int) func() []parquet.WriterOption {
 
 // 1. independent typed writer
 func c15WriterTask(r *gen.Rand, te *typeEntry, codec int) *c15Task {
-	rows := genRows(r, te, r.Range(20, 400), genOpts{NoHuge: true})
+	rows := genRows(r, te, r.Range(20, 400), genOpts{NoHuge: true, SingleEntryMaps: true})
 	opts := c15WriterOpts(r, codec)
 	split := r.Intn(rows.Len() + 1)
 	return &c15Task{kind: "writer", run: func(bool) (map[string]string, error) {
@@ -563,7 +560,7 @@ func c15AnyWriterTask(r *gen.Rand, ft *c15Fresh, codec int) *c15Task {
 
 // c15File writes a file with small pages, page index and bloom filters.
 func c15File(r *gen.Rand, te *typeEntry, codec int) ([]byte, reflect.Value, error) {
-	rows := genRows(r, te, r.Range(60, 500), genOpts{NoHuge: true})
+	rows := genRows(r, te, r.Range(60, 500), genOpts{NoHuge: true, SingleEntryMaps: true})
 	var filters []parquet.BloomFilterColumn
 	for _, p := range te.ops.Schema().Columns() {
 		if r.P(60) {
@@ -851,7 +848,7 @@ func c15Deconstruct(schema *parquet.Schema, rows reflect.Value) []parquet.Row {
 
 // 4. one goroutine per ColumnWriter
 func c15ColumnWritersTask(r *gen.Rand, te *typeEntry, codec int) *c15Task {
-	rows := genRows(r, te, r.Range(20, 300), genOpts{NoHuge: true})
+	rows := genRows(r, te, r.Range(20, 300), genOpts{NoHuge: true, SingleEntryMaps: true})
 	schema := te.ops.Schema()
 	prows := c15Deconstruct(schema, rows)
 	ncols := len(schema.Columns())
@@ -913,7 +910,7 @@ func c15ColumnWritersTask(r *gen.Rand, te *typeEntry, codec int) *c15Task {
 
 // 5. row groups filled concurrently, committed in order
 func c15RowGroupsTask(r *gen.Rand, te *typeEntry, codec int) *c15Task {
-	rows := genRows(r, te, r.Range(20, 300), genOpts{NoHuge: true})
+	rows := genRows(r, te, r.Range(20, 300), genOpts{NoHuge: true, SingleEntryMaps: true})
 	schema := te.ops.Schema()
 	prows := c15Deconstruct(schema, rows)
 	k := r.Range(2, 6)
@@ -978,7 +975,7 @@ func c15RowGroupsTask(r *gen.Rand, te *typeEntry, codec int) *c15Task {
 
 // 6. a fresh Schema shared by goroutines
 func c15SharedSchemaTask(r *gen.Rand, te *typeEntry) *c15Task {
-	rows := genRows(r, te, r.Range(10, 120), genOpts{NoHuge: true})
+	rows := genRows(r, te, r.Range(10, 120), genOpts{NoHuge: true, SingleEntryMaps: true})
 	ref := te.ops.Schema()
 	prows := c15Deconstruct(ref, rows)
 	nJobs := r.Range(3, 10)
@@ -1186,7 +1183,7 @@ func c15BufferTask(r *gen.Rand) *c15Task {
 			te = t
 		}
 	}
-	rows := genRows(r, te, r.Range(20, 300), genOpts{NoHuge: true})
+	rows := genRows(r, te, r.Range(20, 300), genOpts{NoHuge: true, SingleEntryMaps: true})
 	desc := r.Bool()
 	return &c15Task{kind: "buffer", run: func(bool) (map[string]string, error) {
 		col := parquet.Ascending("k1")
@@ -1216,7 +1213,7 @@ func c15BufferTask(r *gen.Rand) *c15Task {
 
 // 9. a shared Conversion
 func c15ConversionTask(r *gen.Rand, te *typeEntry) *c15Task {
-	rows := genRows(r, te, r.Range(20, 200), genOpts{NoHuge: true})
+	rows := genRows(r, te, r.Range(20, 200), genOpts{NoHuge: true, SingleEntryMaps: true})
 	from := te.ops.Schema()
 	fields := from.Fields()
 	drop := r.Intn(len(fields))
